@@ -68,6 +68,27 @@ def _neighbours(v):
     return []
 
 
+def param_boundary_values(name):
+    """float parameters set to the boundary values 0.0 and 1.0 where the config validator accepts them"""
+    cls = config_class(name)
+    base = base_params(name)
+    out = []
+    for f, v in base.items():
+        if f in BASE_FIELDS or not isinstance(v, float):
+            continue
+        for nv in (0.0, 1.0):
+            if nv == v:
+                continue
+            d = dict(base)
+            d[f] = nv
+            try:
+                cls(**d)
+            except Exception:
+                continue
+            out.append((f, nv))
+    return out
+
+
 def param_deviations(name):
     """one-parameter deviations of every algorithm parameter to its neighbouring values, kept only if the config
     validator accepts them -> list of (field, value)"""
